@@ -17,3 +17,4 @@ template class Ref<ByteBuffer>;
 class VerifPooledObject : public RefCountable {public: VerifPooledObject() : _x(0) {} uint32 GetTotalDataSize() const {return sizeof(*this);} int _x;};
 template class ObjectPool<VerifPooledObject>;
 }
+namespace muscle { template Ref<ByteBuffer> CastAwayConstFromRef<ByteBuffer>(const ConstRef<ByteBuffer> &); }
